@@ -159,7 +159,15 @@ def judge(case, I, MS, segs=None):
     corr failure: implementation differs from the model (where the model is defined).  Only the segments the property
     is about are compared."""
     Il, M, S = triples(case, I, MS)
-    Il = [project(x, segs) for x in Il]; M = [project(x, segs) for x in M]; S = [project(x, segs) for x in S]
+    if callable(segs):        # per-line selection: segs(case, k) -> list of segments, None (all) or 'skip'
+        sel = [segs(case, k) for k in range(max(len(Il), len(M), len(S)))]
+        pr = lambda xs: [('-' if (k < len(sel) and sel[k] == 'skip') else project(x, sel[k] if k < len(sel) else None)) for k, x in enumerate(xs)]
+        Il, M, S = pr(Il), pr(M), pr(S)
+        M = [m if m != '-' else None for m in M]
+        Il = [i if i != '-' or (k < len(sel) and sel[k] != 'skip') else 'SKIP' for k, i in enumerate(Il)]
+        M = [('SKIP' if (k < len(sel) and sel[k] == 'skip') else m) for k, m in enumerate(M)]
+    else:
+        Il = [project(x, segs) for x in Il]; M = [project(x, segs) for x in M]; S = [project(x, segs) for x in S]
     corr_ok, prop_ok, step, detail = True, True, None, None
     for k in range(max(len(Il), len(M))):
         i = Il[k] if k < len(Il) else 'MISSING'
